@@ -19,7 +19,7 @@ TECHNIQUE = "runtime monitoring: validator verdict and picture callbacks on conc
 RULE = (
     "case = (pool seed, ordered list of pool indices); a pool has up to 16 sequences: 3 encoder-made from random recipes, 4 *siblings* (one recipe and three re-encodings with exactly one attribute changed: chroma sampling, bit depth, wavelet, slice count, depth or matrix), 4 model-guided "
     "unit histories from random families (profiles, versions 1/2/3, level patterns 0/1/64/66, fragments, fields, numbering starts incl. "
-    "wrap) 3 non-conformant single-edit neighbours and 2 targeted members (version-3 header over pictures needing less; a single field) that keep every parse_info and the final end_of_sequence; every "
+    "wrap) 3 non-conformant single-edit neighbours and 3 targeted members (version-3 header over pictures needing less; a single field; a sequence whose first previous_parse_offset is 13) that keep every parse_info and the final end_of_sequence; every "
     "ordered pair (with repetition) is enumerated per pool, plus sampled lists of length 3 and 4; distinct = distinct (pool, list); "
     "lists whose first member is already rejected are trivial"
 )
@@ -38,7 +38,7 @@ def setup(ctx):
     U.install_permissive_levels()
 
 
-POOL_SIZE = 16
+POOL_SIZE = 17
 
 
 def plan(tier, seed):
@@ -167,13 +167,20 @@ def build_pool(pseed, ctx):
         members.append({"kind": "neighbour:" + fam.name, "data": data})
     # members aimed at per-sequence validator state: a version-3 header over pictures that need less
     # (rejected alone by the minimal-version rule only), and a field sequence with a single field
-    for name, kinds in ((rng.choice(["hq3", "ld3", "hq3f", "hq3w"]), None), (rng.choice(["hq2f", "hq3f"]), "onefield")):
+    for name, kinds in ((rng.choice(["hq3", "ld3", "hq3f", "hq3w"]), None), (rng.choice(["hq2f", "hq3f"]), "onefield"),
+                        (rng.choice(["hq2", "ld1", "hq3"]), "firstprev")):
         fam, m = c01.fam_model(name)
         if kinds is None:
             k = ["SH"] + ["PIC"] * (2 if fam.fields else rng.choice([1, 2])) + ["EOS"]
+        elif kinds == "firstprev":
+            k = ["SH"] + (["PIC"] if fam.version < 3 else []) + ["EOS"]
         else:
             k = ["SH", "PIC", "EOS"]
         hist = c01.number_history(k, rng.choice([0, 4, 2 ** 32 - 2]))
+        if kinds == "firstprev":
+            # rejected alone only because its first previous_parse_offset is not 0; the value "points" at a
+            # 13-byte end_of_sequence unit that would precede it in a concatenation
+            hist[0]["off"], hist[0]["offv"] = "prevwrong", 13
         data, _ = U.assemble(fam, hist)
         members.append({"kind": "targeted:" + name, "data": data})
     # standalone executions
